@@ -443,6 +443,7 @@ func c10(x *mon.Ctx) {
 			x.Fuzz("FuzzMessage", 1000000)
 			x.Fuzz("FuzzSgxExt", 2000000)
 			x.Fuzz("FuzzCollateral", 200000)
+			x.Fuzz("FuzzSignedCollateral", 300000)
 		}()
 	}
 	x.Level = "exploration"
